@@ -216,3 +216,82 @@ pub fn replay(vctx: &valve::Ctx, players: &LayoutSet, schedules: &[Value], seed:
         rep.sample(s);
     }
 }
+
+/// Implementation -> specification: random deliveries (more fragments, up to two duplicates, possibly one fragment that never
+/// arrives) through the real clients, recorded for Trace_Reassembly.tla.
+pub fn trace_random(vctx: &valve::Ctx, players: &LayoutSet, seed: u64, runs: usize, rep: &mut Report, out: &mut Vec<Value>) {
+    use gamedig::verif_hook as hook;
+    let mut rng = StdRng::seed_from_u64(seed ^ 0x7ea55);
+    let mut ix = 0usize;
+    while ix < runs {
+        let (mode, comp) = match rng.gen_range(0 .. 10) {
+            0 ..= 3 => ("all", false),
+            4 | 5 => ("all", true),
+            6 ..= 8 => ("last", false),
+            _ => ("none", false),
+        };
+        let k = if mode == "all" { rng.gen_range(2 ..= 8) } else { rng.gen_range(2 ..= 5) };
+        let cases = cases_for(&mut rng, vctx, players, mode, k, comp);
+        if cases.is_empty() {
+            continue;
+        }
+        let c = &cases[rng.gen_range(0 .. cases.len())];
+        let k = c.batches[c.multi].len();
+        // delivery sequence
+        let mut order: Vec<usize> = (0 .. k).collect();
+        order.shuffle(&mut rng);
+        if mode != "none" {
+            if rng.gen_bool(0.25) {
+                let drop = rng.gen_range(0 .. order.len());
+                order.remove(drop);
+            }
+            for _ in 0 .. [0usize, 0, 1, 1, 2][rng.gen_range(0 .. 5)] {
+                let src = rng.gen_range(0 .. order.len());
+                let at = rng.gen_range(src + 1 ..= order.len());
+                let v = order[src];
+                order.insert(at, v);
+            }
+        }
+        let (_, inorder) = run_case(c, None);
+        let (script, rec) = run_case(c, Some(&order));
+        rep.evaluations += 1;
+        rep.distinct.insert(hash_of(&(c.name.clone(), k, &order)));
+        out.push(json!({"ev":"Call","ix":ix,"mode":mode,"k":k,"comp":comp,"case":c.name,"order":order}));
+        for e in &rec.events {
+            if let hook::Event::Recv { out: o, .. } = e {
+                match o {
+                    hook::RecvOut::Data(d) => {
+                        if let Some(i) = c.batches[c.multi].iter().position(|f| f == d) {
+                            out.push(json!({"ev":"Deliver","i":i}));
+                        }
+                    }
+                    hook::RecvOut::Timeout => out.push(json!({"ev":"Silence"})),
+                }
+            }
+        }
+        let norm = |v: &Value| {
+            let mut v = v.clone();
+            normalise_unordered(&mut v, &c.unordered);
+            v
+        };
+        let res = match (&rec.outcome, &inorder.outcome) {
+            (Outcome::Ok(v), Outcome::Ok(iv)) => if diff("", &norm(iv), &norm(v)).is_none() { "same" } else { "differs" },
+            (Outcome::Ok(_), _) => "differs",
+            (Outcome::Err(_), _) => "error",
+            (Outcome::Panic { msg }, _) => {
+                rep.violation("C08", &format!("{}: panic {}", c.name, valve::first_line(msg)), json!({"kind":"reassembly-trace","case":c.name,"order":order,"script":script}));
+                out.truncate(out.iter().rposition(|e| e["ev"] == "Call").unwrap());
+                ix += 1;
+                continue;
+            }
+            (Outcome::Hang, _) => {
+                rep.violation("C08", &format!("{}: does not return", c.name), json!({"kind":"reassembly-trace","case":c.name,"order":order,"script":script}));
+                out.truncate(out.iter().rposition(|e| e["ev"] == "Call").unwrap());
+                ix += 1;
+                continue;
+            }
+        };
+        out.push(json!({"ev":"Return","res":res}));
+        ix += 1;
+    }
+}
